@@ -85,7 +85,8 @@ func init() {
 	}
 	// (the last two have a modulus whose bit length is not a multiple of 8:
 	// RFC 8230 asks for at least 2048 bits, not for a byte-aligned size)
-	for i, f := range []string{"rsa2048a", "rsa2048b", "rsa3072", "rsa2050", "rsa2060"} {
+	// (and one with the public exponent 3, as legacy tools and tokens make them)
+	for i, f := range []string{"rsa2048a", "rsa2048b", "rsa3072", "rsa2050", "rsa2060", "rsa2048e3"} {
 		raw, err := keyFS.ReadFile("keys/" + f + ".pem")
 		if err != nil {
 			panic(err)
@@ -96,7 +97,7 @@ func init() {
 			panic(err)
 		}
 		k.Precompute()
-		poolRSA = append(poolRSA, &KeyPair{Name: f, Alg: []int64{-37, -38, -39, -37, -39}[i], Priv: k, Pub: &k.PublicKey})
+		poolRSA = append(poolRSA, &KeyPair{Name: f, Alg: []int64{-37, -38, -39, -37, -39, -37}[i], Priv: k, Pub: &k.PublicKey})
 	}
 	poolAll = append(poolAll, poolEC...)
 	poolAll = append(poolAll, poolEd...)
